@@ -63,7 +63,10 @@ def run_seed(name, budget_s, tier='quick', verbose=True):
                 out['detail'] = 'clean: %s | patched: %s' % (r0.stdout[-300:], r1.stdout[-300:])
                 return out
         check_prop = meta.get('check_property', prop)
-        e = dict(os.environ, VERIF_REPO=tree, PONYSIM_OUT_DIR=root, VERIF_BUDGET_S=str(budget_s))
+        e = dict(os.environ, VERIF_REPO=tree, PONYSIM_OUT_DIR=root)
+        e.pop('VERIF_BUDGET_S', None)
+        if budget_s:
+            e['VERIF_BUDGET_S'] = str(budget_s)     # else: the registered quick tier (fixed number of cases)
         t0 = time.time()
         r = subprocess.run([sys.executable, '-m', 'ponysim', 'check', '--property', check_prop, '--tier', tier],
                            cwd=env.VERIF_DIR, capture_output=True, text=True, env=e, timeout=3600)
@@ -87,7 +90,7 @@ def run_seed(name, budget_s, tier='quick', verbose=True):
 def mutants(args):
     base = os.path.join(env.VERIF_DIR, 'seeded')
     names = args.names or sorted(n for n in os.listdir(base) if os.path.isdir(os.path.join(base, n)))
-    budget = float(os.environ.get('VERIF_MUTANT_BUDGET_S', '40'))
+    budget = float(os.environ.get('VERIF_MUTANT_BUDGET_S', '0'))
     results = []
     for n in names:
         r = run_seed(n, budget)
